@@ -138,6 +138,11 @@ func (h *handler) Handle(ctx context.Context, header *protocol.RequestHeader, re
 				if strings.TrimSpace(name) == "" {
 					continue
 				}
+				if !h.allowTopicAutoCreate(principal, name) {
+					// Not authorized to create the topic: answer from the store
+					// (UNKNOWN_TOPIC_OR_PARTITION) instead of creating it.
+					continue
+				}
 				if err := h.ensureTopic(ctx, name, 0); err != nil {
 					if errors.Is(err, metadata.ErrInvalidTopic) {
 						// Not a legal topic name: nothing is created, the lookup below reports it as unknown.
@@ -703,6 +708,16 @@ func (h *handler) allowTopic(principal string, topic string, action acl.Action) 
 		return true
 	}
 	return h.authorizer.Allows(principal, action, acl.ResourceTopic, topic)
+}
+
+// allowTopicAutoCreate reports whether a Metadata request from principal may
+// auto-create topic. Metadata itself needs no permission, but it must not create
+// topics for principals that could not create them any other way: cluster admin
+// (CreateTopics) or produce/fetch on the topic (auto-create on the data path).
+func (h *handler) allowTopicAutoCreate(principal string, topic string) bool {
+	return h.allowAdmin(principal) ||
+		h.allowTopic(principal, topic, acl.ActionProduce) ||
+		h.allowTopic(principal, topic, acl.ActionFetch)
 }
 
 func (h *handler) allowTopics(principal string, topics []string, action acl.Action) bool {
